@@ -698,3 +698,25 @@ fn rigid_program(rng: &mut crate::rng::Rng, i: usize) -> (String, String, String
     let build = |fill: &str| format!("{}{}\nfn main() -> unit {{ {}{} }}\n", pre, f.replace('@', fill), main_body, show);
     (format!("rigid-{}", kind), build(right), build(wrong))
 }
+
+/// The accepted twin (declared arguments) of every call form of the arity / argtype catalogue, in two contexts — for
+/// `gv infer`, which ties the typer's constraint generation on them (method-call forms, overlapping inherent impls).
+pub fn catalogue_good_programs(dir: &std::path::Path) -> Vec<(String, String)> {
+    let st0 = run_in(dir, "fn main() -> unit { () }\n");
+    let Some(genv) = &st0.genv else { return Vec::new() };
+    let pre = arity::prelude_items();
+    let (sites, _, _) = arity::sites(genv);
+    let mut out = Vec::new();
+    for (si, s) in sites.iter().enumerate() {
+        if s.good_call.is_some() || s.form == "builtin:monomorphic" {
+            continue;
+        }
+        let good = format!("{}({})", s.prefix, s.full.join(", "));
+        for j in [0usize, 2] {
+            let (pname, ptext) = arity::POSITIONS[(si + j) % arity::POSITIONS.len()];
+            out.push((format!("{}:s{}:declared={}:{}", s.form, si, s.n, pname), arity::program(&pre, s, ptext, &good)));
+        }
+    }
+    out
+}
+
